@@ -54,7 +54,10 @@ class deadline:
         import signal
 
         self._old = signal.signal(signal.SIGALRM, self._fire)
-        signal.setitimer(signal.ITIMER_REAL, self.seconds)
+        # repeating: library code that swallows the exception (`except Exception` around a sympy
+        # call inside a retry loop, as in utils.get_solution) is interrupted again every second
+        # until the block is left
+        signal.setitimer(signal.ITIMER_REAL, self.seconds, 1.0)
         return self
 
     def __exit__(self, *exc):
